@@ -59,7 +59,7 @@ LEVEL["C07"] = {
 
 LEVEL["C05"] = {
     "text": "Lean theorems over the tokenizer instance model: SetReader resets every mutable field so a re-used instance in any earlier state produces the tokens of a fresh one; HasNextToken is idempotent and transparent; every interleaving of has-next queries with next-token calls yields the same token sequence (all four tokenizers). Tied to the code — and extended to parser, calculator and template instances — by exhaustive ordered pairs from adversarial pools, aborted iterations, has-next patterns and random histories compared step by step with fresh instances.",
-    "design_ref": "DESIGN.md 4/C05", "note": _NOTE + " Parser/calculator/template re-use is covered by the differential histories only.", "technique": "Lean 4 proof (state-machine invariants of the token cache, schedule-independence of has-next queries) + correspondence check",
+    "design_ref": "DESIGN.md 4/C05", "note": _NOTE + " Parser, calculator and template objects are modelled as state machines over the generated field lists (Model/Objects.lean) and proved history-independent (Props/C05Obj.lean); the reset-completeness of the Go structs is a Tie A fact, the behaviour is checked by the history streams.", "technique": "Lean 4 proof (state-machine invariants of the token cache, schedule-independence of has-next queries) + correspondence check",
 }
 LEVEL["C19"] = {
     "text": "PARTIAL. Lean theorems over an explicit-heap evaluator: evaluation only allocates (old cells unchanged on all paths), refines the pure evaluator, is repeatable after arbitrary other evaluations, and an abstract interleaving theorem (threads reading shared-immutable and writing private state get their sequential results under every schedule). Tied to the code by the write-effect inventory regenerated from the source on every run and by sequential purity checks; goroutine schedules are explored under the Go race detector as supporting evidence only.",
